@@ -409,6 +409,8 @@ def main():
     c13_lazy.run_lazy(run, drv, ask, rng)
     import c13_install
     c13_install.run_install(run, drv, ask, rng, err_word)
+    import c13_sdhook
+    c13_sdhook.run_sdhook(run, drv, ask, rng)
     run.finish("proof")
 
 
